@@ -36,7 +36,25 @@ def programs(ctx, n_gen):
     for i in range(n_gen * 2):
         ast, src = gen.gen_spin_candidate(random.Random(rng.getrandbits(48)))
         progs.append(("spin%d" % i, src, []))
+    # directed near-invalid programs: loops that can go round without consuming when a condition holds (the compiler must
+    # reject them, or the machine it builds must carry the certificate)
+    for i, (decl, body) in enumerate(DIRECTED_SPIN):
+        progs.append(("dspin%d" % i, decl + "parser { " + body + " }", []))
     return progs
+
+
+DIRECTED_SPIN = [
+    ("out int c = 0; ", 'loop outer { loop inner { if (c == 0) { break inner; } "a"; } }'),
+    ("out int u = 0; ", 'loop { loop { if u != 3 { break; } "x"; } }'),
+    ("out int c = 0; ", 'loop { loop inner { if c == 0 { break inner; } elif c == 1 { "b"; } "a"; } }'),
+    ("out int c = 0; ", 'loop { optional { "q"; } loop inner { if c == 0 { break inner; } "a"; } }'),
+    ("out int c = 0; ", 'loop outer { try { loop inner { if c == 0 { break inner; } "a"; } } catch { } }'),
+    ("out int c = 0; ", 'loop outer { loop mid { loop inner { if c == 0 { break mid; } "a"; } "b"; } }'),
+    ("out int c = 0; ", 'loop { if c == 0 { c = 1; } else { "a"; } }'),
+    ("out int c = 0; ", 'loop { loop inner { if c == 0 { c = 1; break inner; } "a"; } }'),
+    ("", 'loop { loop inner { break inner; "a"; } }'),
+    ("out int c = 0; ", 'loop { foreach { loop inner { if c == 0 { break inner; } "a"; } } do { c = [c + 1]; } }'),
+]
 
 
 def run(ctx):
